@@ -2920,6 +2920,17 @@ class SequenceAndSetBase(base.ConstructedAsn1Type):
 
         return True
 
+    def _holdsDefault(self, idx, value):
+        # a DEFAULT component that holds its default value is as good
+        # as absent: the encoders leave it out and the decoders give
+        # back an absent one, which the next read fills in again
+        if not self._componentTypeLen:
+            return False
+
+        namedType = self.componentType[idx]
+
+        return namedType.isDefaulted and value == namedType.asn1Object
+
     @property
     def isInconsistent(self):
         """Run necessary checks to ensure |ASN.1| object consistency.
@@ -2944,9 +2955,11 @@ class SequenceAndSetBase(base.ConstructedAsn1Type):
         mapping = {}
 
         for idx, value in enumerate(self._componentValues):
-            # Absent fields are not in the mapping, nor is the schema
-            # placeholder that a read leaves in the slot of one
-            if value is noValue or not value.isValue:
+            # Absent fields are not in the mapping, nor is what a read
+            # leaves in the slot of one: the schema placeholder, or
+            # the default value of a DEFAULT component
+            if (value is noValue or not value.isValue or
+                    self._holdsDefault(idx, value)):
                 continue
 
             if self._componentTypeLen:
